@@ -161,6 +161,21 @@ def run(ctx):
         else:
             r.bad("drop", "dropping a CommandReader no longer reaps the child", fn=d, construct="drop")
 
+    with ctx.rule("C18.INIT", "a new CommandReader has not seen the end of its child's output", floor=1, kind="WIRE") as r:
+        g = facts.fn(CRB + "::build")
+        ebg = ExprBuilder(g)
+        aggs = [st for bb, j, st in g.stmts() if st["k"] == "assign" and st["rv"]["k"] == "agg" and
+                str(st["rv"].get("adt", "")).endswith("process::CommandReader")]
+        vals = []
+        for st in aggs:
+            rv = st["rv"]
+            if "eof" in rv.get("fields", []):
+                vals.append(W.const_val(ebg.operand(rv["ops"][rv["fields"].index("eof")])))
+        if vals and all(v_ == 0 for v_ in vals):
+            r.ok("eof|init", "CommandReader { eof: false, .. }", fn=g)
+        else:
+            r.bad("eof|init", "CommandReaderBuilder::build creates the reader with eof = %s: read() answers end-of-file before reading, "
+                  "the child's output is never searched (and its failure never reported)" % vals, fn=g, construct="eof")
     with ctx.rule("C18.STDERR", "asynchronous stderr wired on; both pipes configured; stderr drained to EOF", floor=5, kind="WIRE") as r:
         f = facts.fn("rg::search::SearchWorkerBuilder::new")
         eb = ExprBuilder(f)
